@@ -61,7 +61,10 @@ type gateSched struct {
 func (g *gateSched) gate(point string, t reflect.Type) {
 	g.mu.Lock()
 	p, ok := g.procOf[goid()]
-	if !ok || g.free || !g.tracked[t] || (g.gen[p] && point != "done") {
+	// "wait" is never gated: the real wg.Wait() must do the blocking itself, exactly as long as
+	// Cache.tla keeps the Wait action disabled (a placeholder that lets a caller through early
+	// runs a generator that does not exist yet).
+	if !ok || g.free || !g.tracked[t] || point == "wait" || (g.gen[p] && point != "done") {
 		g.mu.Unlock()
 		return
 	}
@@ -196,6 +199,9 @@ func runSchedule(kind string, want map[int]string, sched [][]interface{}) (outs 
 	for i, st := range sched {
 		p := int(st[0].(float64))
 		a := st[1].(string)
+		if a == "wait" {
+			continue
+		}
 		at, ok := g.waitParked(p, a, 5*time.Second)
 		if !ok {
 			g.freeAll()
